@@ -94,6 +94,10 @@ pub enum Op {
     Advance { secs: i64 },
     Pump,
     Restart { inst: usize },
+    /// The instance goes down (its host is unreachable) ...
+    Partition { inst: usize },
+    /// ... and comes back, started from its storage.
+    Heal { inst: usize },
     /// Explicit RRDP session reset.
     RrdpSessionReset { inst: usize },
     /// The publication server operator removes the CA's publisher.
@@ -106,6 +110,29 @@ pub enum Op {
 }
 
 impl Op {
+    /// The instances an operation needs to be up.
+    pub fn instances(&self) -> Vec<usize> {
+        match self {
+            Op::CreateCa { inst, parent_inst, .. }
+            | Op::AddParent { inst, parent_inst, .. } => {
+                // The repository lives on instance 0.
+                vec![*inst, *parent_inst, 0]
+            }
+            Op::RemoveParent { inst, .. } | Op::DeleteCa { inst, .. }
+            | Op::ChildResources { inst, .. } | Op::ChildRemove { inst, .. }
+            | Op::ChildSuspend { inst, .. } | Op::ChildMapClass { inst, .. }
+            | Op::Roa { inst, .. } | Op::Aspa { inst, .. }
+            | Op::AspaProviders { inst, .. } | Op::Bgpsec { inst, .. }
+            | Op::KeyRollInit { inst, .. } | Op::KeyRollActivate { inst, .. }
+            | Op::RefreshAll { inst } | Op::RepublishAll { inst, .. }
+            | Op::RepoSyncAll { inst } | Op::Snapshot { inst }
+            | Op::Restart { inst } | Op::RrdpSessionReset { inst }
+            | Op::RemovePublisher { inst, .. } | Op::RestartRrdp { inst, .. }
+            | Op::Partition { inst } => vec![*inst],
+            Op::Heal { .. } | Op::Advance { .. } | Op::Pump => vec![],
+        }
+    }
+
     pub fn kind(&self) -> &'static str {
         match self {
             Op::CreateCa { .. } => "create_ca",
@@ -129,6 +156,8 @@ impl Op {
             Op::Advance { .. } => "advance",
             Op::Pump => "pump",
             Op::Restart { .. } => "restart",
+            Op::Partition { .. } => "partition",
+            Op::Heal { .. } => "heal",
             Op::RrdpSessionReset { .. } => "rrdp_session_reset",
             Op::RemovePublisher { .. } => "remove_publisher",
             Op::RestartRrdp { .. } => "restart_rrdp",
@@ -169,6 +198,8 @@ pub struct GenCfg {
     /// Share (in 1/100 of the entitlement operations) of class name
     /// mappings.
     pub w_class_map: u64,
+    /// Weight of taking the second instance down and up again.
+    pub w_partition: u64,
     pub pump_pct: u64,
 }
 
@@ -195,6 +226,7 @@ impl Default for GenCfg {
             w_rrdp: 0,
             w_status: 0,
             w_class_map: 0,
+            w_partition: 0,
             pump_pct: 55,
         }
     }
@@ -328,6 +360,8 @@ pub struct GenCtx<'a> {
     pub disk: &'a [bool],
     /// Names that were used before and must not be reused.
     pub retired: &'a std::collections::BTreeSet<String>,
+    /// Instances that are down.
+    pub down: &'a [usize],
 }
 
 pub fn generate(rng: &mut Rng, ctx: &GenCtx) -> Op {
@@ -344,8 +378,21 @@ pub fn generate(rng: &mut Rng, ctx: &GenCtx) -> Op {
 
     let total = cfg.w_entitlement + cfg.w_config + cfg.w_removal
         + cfg.w_keyroll + cfg.w_maintenance + cfg.w_clock + cfg.w_rrdp
-        + cfg.w_status + 10;
+        + cfg.w_status + cfg.w_partition + 10;
     let mut pick = rng.below(total);
+
+    if pick < cfg.w_partition {
+        return if ctx.down.contains(&1) {
+            Op::Heal { inst: 1 }
+        } else {
+            Op::Partition { inst: 1 }
+        }
+    }
+    pick -= cfg.w_partition;
+    // While the second instance is away, heal it sooner rather than later.
+    if cfg.w_partition > 0 && ctx.down.contains(&1) && rng.chance(1, 4) {
+        return Op::Heal { inst: 1 }
+    }
 
     if pick < cfg.w_status {
         let ca = *rng.pick(&user_cas);
